@@ -10,6 +10,7 @@
  */
 #include "hcommon.h"
 #include <unistd.h>
+#include <stdio_ext.h>
 #include <fcntl.h>
 #include <ctype.h>
 #include <sys/types.h>
@@ -253,11 +254,12 @@ static void h_op(void)
   if (!strcmp(op, "roundtrip")) { if (!sqfp) h_out("closed"); else op_roundtrip(); return; }
 
   if (!strcmp(op, "srcscan")) {
-    /* srcscan src=gzip|stdin fmt= abc= B= call=read|readinfo|readseq|win C= W=: read the current file to its end through a gzip -dc
+    /* srcscan src=gzip|stdin|pipe fmt= abc= B= call=read|readinfo|readseq|win C= W=: read the current file to its end through a gzip -dc
      * pipe (file name *.gz) or through standard input ("-"; done in a child process whose stdin is the file). One answer line:
      * the record lines joined by " ;; ". */
     const char *src = h_arg("src") ? h_arg("src") : "gzip", *call = h_arg("call") ? h_arg("call") : "read", *a = h_arg("abc");
-    int fmt = fmt_code(h_arg("fmt")), C = (int) h_argi("C", 0), W = (int) h_argi("W", 10), is_stdin = !strcmp(src, "stdin");
+    int fmt = fmt_code(h_arg("fmt")), C = (int) h_argi("C", 0), W = (int) h_argi("W", 10), is_pipe = !strcmp(src, "pipe"), is_stdin = !strcmp(src, "stdin") || is_pipe;
+    pid_t catpid = 0;   /* src=pipe: standard input is a REAL pipe fed by `cat file` (ftello() fails on it, as on the gzip -dc pipe) */
     char gz[80], cmd[256], *text; long tn; pid_t pid = 0; int wst = 0, guard = 0;
     close_all();
     esl_verif_readbufsize = (int) h_argi("B", 4096);
@@ -268,7 +270,15 @@ static void h_op(void)
     if (is_stdin) { pid = fork(); if (pid < 0) { h_out("fork-failed"); return; } }
     if (!is_stdin || pid == 0) {
       h_sink = fopen("t.scan", "wb");
-      if (is_stdin && freopen(fname, "rb", stdin) == NULL) { fputs("freopen-failed ;; ", h_sink); fclose(h_sink); _exit(0); }
+      if (is_pipe) {
+        int pfd[2];
+        if (pipe(pfd) != 0) { fputs("pipe-failed ;; ", h_sink); fclose(h_sink); _exit(0); }
+        catpid = fork();
+        if (catpid == 0) { dup2(pfd[1], 1); close(pfd[0]); close(pfd[1]); execlp("cat", "cat", fname, (char *) NULL); _exit(127); }
+        close(pfd[1]); dup2(pfd[0], 0); close(pfd[0]);
+        __fpurge(stdin);    /* drop the harness's own buffered input: from here on stdin is the pipe */
+      }
+      else if (is_stdin && freopen(fname, "rb", stdin) == NULL) { fputs("freopen-failed ;; ", h_sink); fclose(h_sink); _exit(0); }
       status = abc ? esl_sqfile_OpenDigital(abc, is_stdin ? "-" : gz, fmt, NULL, &sqfp) : esl_sqfile_Open(is_stdin ? "-" : gz, fmt, NULL, &sqfp);
       if (status != eslOK) { char t[64]; sqfp = NULL; snprintf(t, sizeof(t), "open-%s", h_status(status)); h_emit(t); }
       else {
@@ -285,6 +295,7 @@ static void h_op(void)
         }
       }
       fclose(h_sink); h_sink = NULL;
+      if (is_pipe && catpid > 0) { int c; while ((c = getchar()) != EOF) ; waitpid(catpid, NULL, 0); }
       if (is_stdin) _exit(0);
       close_all();
     }
@@ -294,7 +305,7 @@ static void h_op(void)
       if (fread(text, 1, tn, fp) != (size_t) tn) tn = 0;
       text[tn] = 0; fclose(fp); remove("t.scan"); remove(gz);
       if (tn >= 4 && !strcmp(text + tn - 4, " ;; ")) text[tn - 4] = 0;
-      h_out("scan-%s %s", is_stdin ? "stdin" : "gzip", text); free(text); }
+      h_out("scan-%s %s", is_pipe ? "pipe" : is_stdin ? "stdin" : "gzip", text); free(text); }
     if (abc && is_stdin) { esl_alphabet_Destroy(abc); abc = NULL; }
     return;
   }
